@@ -1,3 +1,6 @@
 import Iodata.Props.C10
 import Iodata.Props.C09
 import Iodata.Props.C16
+import Iodata.Props.C20
+import Iodata.Props.C17
+import Iodata.Props.C19
